@@ -2,7 +2,7 @@
 from . import secretlib, textgen
 from .textcommon import TEXT_MODEL_DEPS as MODEL_DEPS, TEXT_TRUSTED as TRUSTED_BASE, TEXT_ASSUMPTIONS as ASSUMPTIONS  # noqa
 
-COQ_DEPS = ["lib/Alloc.v", "lib/Str.v", "lib/Rx.v", "lib/RxFacts.v", "lib/RxSub.v", "gen/G_rx.v", "gen/G_text_consts.v", "model/TextModel.v", "model/JunModel.v", "model/JunProofs.v", "model/TextProofs.v", "model/ValueProofs.v"]
+COQ_DEPS = ["lib/Alloc.v", "lib/Str.v", "lib/Rx.v", "lib/RxFacts.v", "lib/RxSub.v", "gen/G_rx.v", "gen/G_text_consts.v", "model/TextModel.v", "model/JunModel.v", "model/JunProofs.v", "model/TextProofs.v", "model/ValueProofs.v", "model/Findings.v"]
 RULE = ("runs of 5-40 (quick) / 5-300 (thorough) secret-bearing lines over a small pool of secrets of all classes so that repetitions occur, with quoting/enclosing variants, different line forms, other secrets in between, and "
         "$9$ re-encodings of one plaintext under different salt characters (also the clear text itself); replacements read back by position; oracle: equal secrets <-> equal replacement cores; non-trivial = a run with a repeated secret")
 
